@@ -10,7 +10,7 @@ namespace Nix.Drive.Store
 open Nix Nix.Proto Nix.Drive Nix.Dump
 
 def sessionOps : List String := ["fopen", "fclose", "freopen", "fflush", "fdrop", "fisopen", "fbytes"]
-def readOnlyOps : List String := ["getlinkh", "get", "has", "count", "list", "valid", "drop", "idof", "haslink", "getlink", "countlink", "listlink",
+def readOnlyOps : List String := ["fld", "getlinkh", "get", "has", "count", "list", "valid", "drop", "idof", "haslink", "getlink", "countlink", "listlink",
   "xcheck", "xlinks", "xfeat", "hdump", "haslinkh", "getf", "find", "dump", "dumpx", "validate"]
 
 def implOk (impl : List String) : Bool := impl.head? == some "ok"
@@ -228,7 +228,7 @@ def handleImpl (ds : DState) (op : String) (args impl : List String) : Option (D
       | some (_, before) => [("handle_view_of_links_survives_reopen", before == impl)]
       | none => []
     fin { st with linkObs := (key, impl) :: st.linkObs.filter (·.1 != key) } (judge s!"{op}.{if ok then "ok" else "err"}" impl impl rules)
-  | "has" | "count" | "list" | "drop" | "idof" | "haslink" | "getlink" =>
+  | "has" | "count" | "list" | "drop" | "idof" | "haslink" | "getlink" | "fld" =>
     fin st (.ok s!"{op}.{if ok then "ok" else "err"}")
   | "adim" | "sdim" | "ddims" | "da_setext" | "da_fill" | "da_fills" | "da_append" | "da_appends" | "pvalues" | "pset" | "mkpv" =>
     fin (note st) (.ok s!"{op}.{(args[1]?).getD ""}.{if ok then "ok" else (impl[1]?).getD "err"}")
